@@ -188,3 +188,10 @@ package cff
 //@   loop 4
 //@     invariant len(buf) == extraBase + 1 + 3*len(extra) && fresh(buf) && extraBase >= 2 && len(extra) <= 255
 //@     invariant forall k int :: 0 <= k && k < len(extra) ==> extra[k].gid < len(glyphNames)
+
+// NumGlyphs (implements sfnt.Outlines; the interface contract assumed in
+// package sfnt states the same).
+//@ func (o *Outlines) NumGlyphs() (n int)   props: C16
+//@   requires o != nil
+//@   ensures n == len(o.Glyphs)
+//@   modifies nothing
